@@ -52,12 +52,12 @@ def main():
         t = types.get(n)
         stated = None
         if t:
-            cand = "Theorem %s_%s :\n  %s.\nProof. exact %s. Qed.\n" % (pid, n, t.replace("\n", "\n  "), n)
+            cand = "Theorem %s_%s :\n  %s.\nProof. exact %s. Qed.\n" % (pid, n.split(".")[-1], t.replace("\n", "\n  "), n)
             ok, _ = compiles(header + "\n" + cand)
             if ok:
                 stated = cand
         if stated is None:
-            stated = "(* statement as proved in the theory file (its printed form does not re-parse verbatim) *)\nTheorem %s_%s : ltac:(let t := type of %s in exact t).\nProof. exact %s. Qed.\n" % (pid, n, n, n)
+            stated = "(* statement as proved in the theory file (its printed form does not re-parse verbatim) *)\nTheorem %s_%s : ltac:(let t := type of %s in exact t).\nProof. exact %s. Qed.\n" % (pid, n.split(".")[-1], n, n)
             sys.stderr.write("note: %s stated via type-of\n" % n)
         body.append(stated)
     sites = ""
@@ -65,7 +65,7 @@ def main():
         sites = ("\n(* tie to the source: every statement pattern the model transcribes is still recognised, in order,\n"
                  "   in /repo's current source (gen/Sites_gen.v is regenerated on every run by tools/sites.py) *)\n"
                  "From FG.gen Require Import Sites_gen.\nTheorem %s_sites_recognised : forallb (fun b => b) sites_%s = true.\nProof. vm_compute. reflexivity. Qed.\n" % (pid, pid))
-    text = "(** %s *)\n%s\n\n%s\n%s%s" % (intro, header, "\n".join(body), "".join("Print Assumptions %s_%s.\n" % (pid, n) for n in pa), sites)
+    text = "(** %s *)\n%s\n\n%s\n%s%s" % (intro, header, "\n".join(body), "".join("Print Assumptions %s_%s.\n" % (pid, n.split(".")[-1]) for n in pa), sites)
     if os.environ.get("MKPROPS_APPEND"):
         old = open(os.path.join(COQ, "properties", pid + ".v")).read()
         mark = "\n(* ---- appended by tools/mkprops.py: " + intro.split(":")[0] + " ---- *)\n"
